@@ -34,6 +34,8 @@ fn addr() -> BoxedStrategy<Addr> {
         3 => (any::<[u16; 8]>(), any::<u16>(), prop_oneof![Just(0u32), Just(0u32), 1u32..=u32::MAX])
             .prop_map(|(a, p, s)| Addr::V6(a, p, s)),
         2 => ("[a-z][a-z0-9.-]{0,20}", any::<u16>()).prop_map(|(h, p)| Addr::Host(h, p)),
+        // AeAddr<String> takes any text as the address: the printer guards a '@' inside it
+        1 => ("[a-z0-9.@-]{1,20}", any::<u16>()).prop_map(|(h, p)| Addr::Host(h, p)),
     ]
     .boxed()
 }
@@ -46,13 +48,19 @@ pub fn run(ctx: &Ctx) {
     };
     ctx.run_prop(
         "ae_addr_roundtrip",
-        "random AE title (ASCII/Unicode, no '@') x IPv4/IPv6(scope id)/host:port; AeAddr<T> and FullAeAddr<T> \
+        "random AE title (ASCII/Unicode, no '@') x IPv4/IPv6(scope id)/host:port (host text occasionally containing '@', which AeAddr<String> accepts); AeAddr<T> and FullAeAddr<T> \
          for T in SocketAddrV4, SocketAddrV6, SocketAddr, String; oracle parse(to_string(a)) == a; \
          non-trivial = has a title (distinct by title+address)",
         strat,
         ctx.cases(20_000, 300_000),
         |c: &Case, obs: &mut Obs| {
             obs.nontrivial = c.title.is_some();
+            if let Addr::Host(h, _) = &c.addr {
+                if h.contains('@') {
+                    obs.class(if c.title.is_some() { "at-sign-in-address:titled" } else { "at-sign-in-address:untitled" });
+                    obs.nontrivial = true;
+                }
+            }
             macro_rules! rt {
                 ($ty:ty, $sock:expr, $kind:expr) => {{
                     let sock: $ty = $sock;
